@@ -246,6 +246,22 @@ Example eui_examples :
   /\ schema_of 108 = Some [FEui 6] /\ schema_of 109 = Some [FEui 8].
 Proof. repeat split; vm_compute; reflexivity. Qed.
 
+(* ------------------------------------------------------------------ A in class CH *)
+
+(* dns/rdtypes/CH/A.py: the 16-bit address printed with f"{address:o}" is one tokenizer word and reads
+   back through get_uint16(base=8), for all 65536 addresses (finite sweep) *)
+Theorem octal_field_roundtrip : forall v, 0 <= v <= 65535 ->
+  print_base 8 v <> [] /\ forallb safe (print_base 8 v) = true /\
+  as_uint max16 (mkTok tIDENT (print_base 8 v) false None) 8 = Ok v.
+Proof. exact octal_facts. Qed.
+Print Assumptions octal_field_roundtrip.
+
+Example octal_examples :
+  print_base 8 4660 = [49; 49; 48; 54; 52] /\ print_base 8 0 = [48] /\ print_base 8 65535 = [49; 55; 55; 55; 55; 55]
+  /\ as_uint max16 (mkTok tIDENT [49; 56] false None) 8 = Lib eSyntax           (* "18" is not octal *)
+  /\ schema_of CH_A = Some [FName; FOct16].
+Proof. repeat split; vm_compute; reflexivity. Qed.
+
 (* ------------------------------------------------------------------ NID / L64 *)
 
 (* dns/rdtypes/ANY/NID.py, L64.py keep the 64-bit value as the text xxxx:xxxx:xxxx:xxxx and validate it with
@@ -296,6 +312,19 @@ Proof.
   discriminate.
 Qed.
 Print Assumptions schema_table_wf.
+
+(* the two together, per record type of the table: no side condition on the schema is left, and the
+   cross-field check is the type's own (schema_chk) *)
+Theorem text_roundtrip_every_schema_type : forall rdtype fs sty c vs text vs' rest fw tw,
+  schema_of rdtype = Some fs ->
+  Forall2 val_ok fs vs -> style_ok sty -> (rest = [] \/ exists r, rest = 10 :: r) ->
+  record_to_text sty fs vs = Ok text -> expects sty c fs vs = Ok vs' -> schema_chk rdtype vs' = Ok tt ->
+  record_from_text_gen fw tw c fs (schema_chk rdtype) (text ++ rest) = Ok vs'.
+Proof.
+  intros rdtype fs sty c vs text vs' rest fw tw Hs Hv Hst Hr Hp He Hc.
+  exact (record_roundtrip sty c fs (schema_chk rdtype) vs text vs' rest fw tw (schema_table_wf rdtype fs Hs) Hv Hst Hr Hp He Hc).
+Qed.
+Print Assumptions text_roundtrip_every_schema_type.
 
 (* names printed and parsed without any origin: exactly the same values *)
 Theorem text_roundtrip_asis : forall sty c fs chk vs text rest fw tw,
